@@ -187,6 +187,9 @@ def wide_parents():
     return out
 
 
+CHILD_INDEX_FAILS = []
+
+
 def random_history(names, rng, length):
     n = len(names)
     nodes = fresh(names)
@@ -208,6 +211,19 @@ def random_history(names, rng, length):
         after = state_of(nodes)
         trans.append((list(hist), op, st, ret, after))
         hist.append(op)
+        # child_index must agree with the list model for any pair, also right after a node was detached
+        for _ in range(2):
+            p, c = rng.randrange(n), rng.randrange(n)
+            if len(op) > 2 and isinstance(op[1], int) and isinstance(op[2], int) and rng.random() < 0.6:
+                p, c = op[1], op[2]
+            try:
+                got = nodes[p].child_index(nodes[c])
+            except Exception as e:
+                got = "raised:" + type(e).__name__
+            want = after["kids"][p].index(c) if c in after["kids"][p] else None
+            if got != want:
+                CHILD_INDEX_FAILS.append({"case": {"names": names, "history": list(hist), "query": ["child_index", p, c]},
+                                          "what": f"after {hist[-3:]}: child_index({p},{c}) = {got!r}, the child list {after['kids'][p]} implies {want!r}"})
     return trans
 
 
@@ -328,6 +344,7 @@ def run(ctx):
             mstate = last["state"]
             if mret != ret or mstate["kids"] != after["kids"] or mstate["parent"] != after["parent"]:
                 diffs.append({"case": {"names": names, "history": hist, "op": op}, "impl": {"ret": ret, "state": after}, "model": last})
+    fails += CHILD_INDEX_FAILS[:20]; del CHILD_INDEX_FAILS[:]
     qf, qd, qn = run_queries(ctx, rng, 300 if quick else 2000 if mid else 5000)
     fails += qf; diffs += qd
     kinds = {}
